@@ -133,6 +133,7 @@ func c02AgedCheck(x *cpuCtx, c *cpuCase) (string, string) {
 
 func replayC02(raw json.RawMessage) (string, error) {
 	cpuDirtIRQ = true
+	cpuChargeMem = true
 	if ok, what, err := cpuAgedReplay(raw, c02AgedCheck); ok {
 		return what, err
 	}
@@ -153,6 +154,7 @@ func replayC02(raw json.RawMessage) (string, error) {
 
 func runC02(r *report.Run) {
 	cpuDirtIRQ = true
+	cpuChargeMem = true
 	o := cpuSweepOpts{thorough: r.Tier == "thorough", withE: true, withInt: true, seed: r.Seed}
 	var nontriv, total int64
 	agedSteps := cpuAgedAll(r, o.thorough, true, c02AgedCheck)
